@@ -147,9 +147,17 @@ func errString(err error) string {
 	return err.Error()
 }
 
+// quietHeartbeat keeps PING/PONG and their timeouts out of the cases: no heartbeat is due while a case
+// runs, so a close can only come from the mechanism under test.
+func quietHeartbeat(cfg eio.ServerConfig) eio.ServerConfig {
+	cfg.PingInterval = 5 * time.Minute
+	cfg.PingTimeout = 5 * time.Minute
+	return cfg
+}
+
 func newPollSession(spec limitSpec) (*pollSession, error) {
 	s := &pollSession{closed: make(chan closeInfo, 4)}
-	cfg := spec.cfg
+	cfg := quietHeartbeat(spec.cfg)
 	s.srv = eio.NewServer(func(sock eio.ServerSocket) *eio.Callbacks {
 		return &eio.Callbacks{
 			OnPacket: func(packets ...*parser.Packet) {
@@ -384,6 +392,11 @@ func runPollCase(c *ctx, pc pollCase, limIdx int, st *partStats) {
 	}
 
 	// within the announced limit: accepted
+	if pc.Real && code == -1 && !deliveredTested {
+		// the client could not even complete the exchange with the loopback server: not a verdict
+		c.harnessErr("polling rig (real net/http): client transport error on a request within the limit: " + pc.String())
+		return
+	}
 	if code != 200 || !deliveredTested {
 		report(kPollRefused, fmt.Sprintf("status %d, delivered=%v (announced maxPayload %d)", code, deliveredTested, sess.announced))
 		return
